@@ -24,6 +24,10 @@ pub enum SeedImg {
     RandomEocd { len: u64, seed: u64, entries: u16, cd_size: u32, cd_off: u32 },
     /// one of the repository's test archives
     Fixture(String),
+    /// a long run of one record signature or marker (local / central / end / ZIP64 end / locator / descriptor /
+    /// spanning markers), optionally with a few bytes of filler after each, in front of a small real archive:
+    /// whatever a reader does per marker (skip, recurse, retry, allocate) it does `count` times
+    MarkerRun { token: u32, pad: u8, count: u32, seed: u64 },
 }
 
 #[derive(Serialize, Deserialize, Clone, Debug, PartialEq)]
@@ -82,6 +86,17 @@ pub fn seed_image(s: &SeedImg) -> Vec<u8> {
             v
         }
         SeedImg::Fixture(name) => std::fs::read(format!("/repo/tests/data/{name}")).unwrap_or_default(),
+        SeedImg::MarkerRun { token, pad, count, seed } => {
+            let mut v = Vec::with_capacity((*count as usize) * (4 + *pad as usize) + 200);
+            for _ in 0..*count {
+                v.extend_from_slice(&token.to_le_bytes());
+                v.extend(std::iter::repeat(0u8).take(*pad as usize));
+            }
+            let mut l = crate::indep::build::Layout::default();
+            l.entries.push(crate::indep::build::BEntry { name: Hex(format!("after{}", seed % 10).into_bytes()), content: crate::content::Content::Lit(Hex(b"payload".to_vec())), ..Default::default() });
+            v.extend_from_slice(&crate::indep::build::build(&l).image);
+            v
+        }
     }
 }
 
@@ -686,6 +701,12 @@ impl Scenario for Hostile {
                     }
                     SeedImg::Src(Source::Built(l))
                 }
+                9 if !small && r.chance(1, 3) => SeedImg::MarkerRun {
+                    token: r.pickc(&[indep::SIG_LOCAL, indep::SIG_CENTRAL, indep::SIG_EOCD, indep::SIG_Z64_EOCD, indep::SIG_Z64_LOC, indep::SIG_DD, 0x30304b50, 0x08074b50, 0x30304b50]),
+                    pad: r.pickc(&[0u8, 0, 0, 4, 12, 26]),
+                    count: r.pickc(&[300u32, 3_000, 30_000, 300_000]),
+                    seed: r.next_u64(),
+                },
                 9 => SeedImg::Fixture(r.pick(&["aes_archive.zip", "comment_garbage.zip", "files_and_dirs.zip", "invalid_cde_number_of_files_allocation_greater_offset.zip", "invalid_cde_number_of_files_allocation_smaller_offset.zip", "invalid_offset.zip", "invalid_offset2.zip", "mimetype.zip", "zip64_demo.zip"]).to_string()),
                 10 => SeedImg::Random { len: r.size(3000), seed: r.next_u64() },
                 _ => SeedImg::RandomEocd { len: r.size(2000), seed: r.next_u64(), entries: r.pickc(&[0u16, 1, 2, 0xffff, 1000]), cd_size: r.pickc(&[0u32, 46, 100, 0xffff_ffff, 5000]), cd_off: r.pickc(&[0u32, 1, 30, 0xffff_ffff, 2000]) },
